@@ -130,7 +130,17 @@ def c12():
     behs = [b for b in behs if any(a["a"] == "Reset" for a in b["hist"])]
     n = _traces(chk, behs, rng, "tlc-simulated-resets+random-creation-orders")
     rb = [random_behaviour(rng, resets=0.12, max_jobs=4, max_ops=4, max_m=3) for _ in range(_n(chk, 120, 1200))]
-    _traces(chk, rb, rng, "random-large-resets", start=n + 1)
+    n += _traces(chk, rb, rng, "random-large-resets", start=n + 1)
+    # the graph updater among the observers, and whole environments over several episodes
+    from .gchecks import residual_trace, BUILDERS
+    from .echecks import env_trace, random_env_cfg
+    traces = [residual_trace(n + 1 + i, b, rng, BUILDERS[i % 4], True, i % 3 != 0)
+              for i, b in enumerate((behs + rb)[: _n(chk, 120, 1000)])]
+    chk.monitor(traces, source="residual-graph-updater-resets")
+    n += len(traces)
+    traces = [env_trace(n + 1 + i, b, random_env_cfg(rng, True), rng, episodes=rng.choice([2, 3]), fault_prob=0.05)
+              for i, b in enumerate((behs + rb)[: _n(chk, 60, 500)])]
+    chk.monitor(traces, source="environment-episodes")
     return chk.finish(
         "TLC: after Reset (dispatcher, then every subscriber in order) the observer records equal the freshly "
         "constructed ones, for every creation order of up to three of the observers whose reset reads another "
@@ -157,6 +167,22 @@ def c13():
           for _ in range(_n(chk, 150, 1500))]
     traces = [feature_trace(n + i + 1, b, cr) for i, b in enumerate(rb)]
     chk.monitor(traces, source="random-large+reward-observers")
+    # rewards returned by the environments (single: 2 episodes; multi: the configured reward function in every episode)
+    from .echecks import env_trace, random_env_cfg, multi_traces
+    base = n + len(rb) + 1
+    traces = [env_trace(base + i, b, random_env_cfg(rng, True), rng, episodes=2, fault_prob=0.05)
+              for i, b in enumerate(rb[: _n(chk, 40, 300)])]
+    chk.monitor(traces, source="environment-step-rewards")
+    base += len(traces)
+    mt = []
+    for rep in range(_n(chk, 4, 16)):
+        cfg = random_env_cfg(rng, True)
+        cfg["reward"] = ["IdleTimeReward", "MakespanReward"][rep % 2]
+        ts = multi_traces(base, rng, dict(num_jobs=(2, 3), num_machines=(2, 3), duration_range=(1, 5), seed=rep + chk.seed),
+                          cfg, resets=6, steps_rng=rng)
+        base += len(ts) + 1
+        mt.extend(ts)
+    chk.monitor(mt, source="multi-environment-rewards")
     return chk.finish(
         "TLC: one non-positive reward per dispatch, running sum = -makespan (makespan reward) / -total idle "
         "time up to each machine's last operation (idle-time reward), in every reachable state incl. after "
